@@ -247,6 +247,80 @@ def bounded(b):
                         good, what = False, "score onset %.3f (performed mean %.4f): maps give %.4f / %.4f" % (sb, mean, float(stime_to_ptime(sb)), float(ptime_to_stime(mean)))
                 b.case("codec/time_maps_interpolate_matched_onsets_chords_by_mean", good, case, what)
     _single_onset_maps(b)
+    _edit_between_encodings(b)
+    _steady_performance(b)
+
+
+def _edit_between_encodings(b):
+    """a part that was encoded once, then edited (a note moved and lengthened), is encoded and decoded like a part built in the edited state"""
+    import partitura.performance as pf
+    import partitura.score as sc
+    import partitura.musicanalysis.performance_codec as pc
+    from gen import scores as G
+
+    def mk(edited):
+        notes = [("n0", 0, 4, "C", None, 4, 1, 1), ("n1", 4, 4, "D", None, 4, 1, 1), ("n2", 8, 4, "E", None, 4, 1, 1), ("n3", 12, 4, "F", None, 4, 1, 1), ("n4", 16, 8, "G", None, 4, 1, 1)]
+        if edited:
+            notes[1] = ("n1", 6, 2, "D", None, 4, 1, 1)
+            notes[3] = ("n3", 12, 3, "F", None, 4, 1, 1)
+        return G.build_part("P1", 4, notes=notes, measures=[(0, 16), (16, 32)])
+    ppart = pf.PerformedPart([dict(id="p%d" % i, midi_pitch=60 + [0, 2, 4, 5, 7][i], note_on=0.5 + 0.55 * t, note_off=0.5 + 0.55 * t + d, velocity=50 + 5 * i, track=0, channel=0)
+                              for i, (t, d) in enumerate(((0, 0.4), (1.5, 0.2), (2, 0.5), (3, 0.3), (4, 1.0)))], id="PP")
+    al = [dict(label="match", score_id="n%d" % i, performance_id="p%d" % i) for i in range(5)]
+    part = mk(False)
+    case = {"sequence": "encode, move and shorten two notes of the part, encode again"}
+    ok, _ = b.guard("codec/encode_no_exception", case, lambda: (pc.encode_performance(part, ppart, al), pc.get_time_maps_from_alignment(ppart, part, al)))
+    if not ok:
+        return
+    # the edit, through the public API
+    for nid, s_, e_ in (("n1", 6, 8), ("n3", 12, 15)):
+        n = next(x for x in part.iter_all(sc.Note) if x.id == nid)
+        part.remove(n)
+        part.add(n, s_, e_)
+    fresh = mk(True)
+    ok, res = b.guard("codec/encode_no_exception", case, lambda: (pc.encode_performance(part, ppart, al), pc.encode_performance(fresh, ppart, al),
+                                                                pc.get_time_maps_from_alignment(ppart, part, al), pc.get_time_maps_from_alignment(ppart, fresh, al)))
+    if ok:
+        e1, e2, m1, m2 = res
+        same_params = all(np.allclose(np.asarray(e1[0][f], dtype=float), np.asarray(e2[0][f], dtype=float), atol=1e-6) for f in e1[0].dtype.names)
+        qs = [0.0, 1.0, 1.5, 2.0, 3.0]
+        same_maps = np.allclose(np.asarray(m1[1](np.array(qs)), dtype=float), np.asarray(m2[1](np.array(qs)), dtype=float), atol=1e-6)
+        b.case("codec/decode_of_encode_reproduces_onsets_durations_velocities", same_params and same_maps, case,
+               "the parameters / time maps of the edited part differ from those of a part built in the edited state (parameters equal: %r, maps equal: %r)" % (same_params, same_maps))
+
+
+def _steady_performance(b):
+    """an almost metronomic performance (beat period between 0.510 and 0.490 s): the round trip holds for every normalisation"""
+    import partitura.performance as pf
+    import partitura.musicanalysis.performance_codec as pc
+    from gen import scores as G
+    part = G.build_part("P1", 4, notes=[("n%d" % i, 4 * i, 4, "CDEFGAB"[i % 7], None, 4, 1, 1) for i in range(12)], measures=[(0, 16), (16, 32), (32, 48)])
+    t, notes = 1.0, []
+    for i in range(12):
+        bp = 0.510 - 0.020 * i / 11
+        notes.append(dict(id="p%d" % i, midi_pitch=[60, 62, 64, 65, 67, 69, 71][i % 7], note_on=t, note_off=t + 0.8 * bp, velocity=60 + i, track=0, channel=0))
+        t += bp
+    ppart = pf.PerformedPart(notes, id="PP")
+    al = [dict(label="match", score_id="n%d" % i, performance_id="p%d" % i) for i in range(12)]
+    for norm in ("beat_period", "beat_period_log", "beat_period_ratio", "beat_period_ratio_log", "beat_period_standardized"):
+        for method in ("average", "derivative"):
+            case = {"performance": "almost metronomic (0.510 to 0.490 s per beat)", "normalization": norm, "tempo_smooth": method}
+            ok, enc = b.guard("codec/encode_no_exception", case, lambda: pc.encode_performance(part, ppart, al, beat_normalization=norm, tempo_smooth=method))
+            if not ok:
+                continue
+            ok, dec = b.guard("codec/decode_no_exception", case, lambda: pc.decode_performance(part, enc[0], snote_ids=enc[1], beat_normalization=norm))
+            if not ok:
+                continue
+            orig = {n["id"]: n for n in ppart.notes}
+            pairs = [(orig["p%s" % sid[1:]], d) for sid, d in zip(enc[1], dec.notes)]
+            shifts = [d["note_on"] - o["note_on"] for o, d in pairs]
+            bad = None
+            if max(shifts) - min(shifts) > 1e-3:
+                bad = "decoded onsets differ from the performed ones by more than one common shift (spread %.4f s)" % (max(shifts) - min(shifts))
+            for o, d in pairs:
+                if abs((d["note_off"] - d["note_on"]) - (o["note_off"] - o["note_on"])) > 1e-3:
+                    bad = bad or "duration %.4f decoded as %.4f" % (o["note_off"] - o["note_on"], d["note_off"] - d["note_on"])
+            b.case("codec/decode_of_encode_reproduces_onsets_durations_velocities", bad is None, case, bad or "")
 
 
 def _single_onset_maps(b):
